@@ -729,6 +729,7 @@ impl<'a> Parser<'a> {
             let op = self.current().clone();
             self.next()?;
 
+            let rhs_in_parentheses = self.current() == &Token::LeftParentheses;
             let mut rhs;
             if op == Token::LeftSquareParentheses {
                 // The subscript is delimited by the brackets: any expression may stand between them
@@ -779,6 +780,8 @@ impl<'a> Parser<'a> {
                         ParserExpressionTreeData::Tuple { values } => {
                             values
                         }
+                        // A parenthesised list of one element is not a tuple to the expression parser
+                        _ if rhs_in_parentheses => { vec![rhs] }
                         _ => { return Err(ParserError::new(op_location, ParserErrorType::ExpectedTuple)); }
                     };
 
@@ -792,6 +795,7 @@ impl<'a> Parser<'a> {
                         ParserExpressionTreeData::Tuple { values } => {
                             values
                         }
+                        _ if rhs_in_parentheses => { vec![rhs] }
                         _ => { return Err(ParserError::new(op_location, ParserErrorType::ExpectedTuple)); }
                     };
 
